@@ -46,6 +46,11 @@ CHECKS = {
          "Every setting x {CIF, .res, POSCAR} x 11 variants within one deviation of the default (thorough: two deviations): cell parameters, IT number + operation set, elements, labels, coordinates to the written precision, occupancies (CIF), P1 lattice + unit-cell atom set (POSCAR) after the round trip; every text is also parsed by reference readers implementing SHELX LATT/SYMM semantics and CIF syntax independently.",
          "Asymmetric units are shifted per setting so that no two images are closer than 0.02 (fractional), i.e. away from the library's 0.01 merge tolerance; standard label strings only.",
          "2/C10"),
+ "C17": ("model_checking",
+         "complete enumeration of the finite lookup domain (103 elements x all spelling routes, integers -200..300 x 10 numeric routes, 103^2 ordered pairs) against a hand-written reference list",
+         "Finite domain enumerated completely in both tiers: every element through 56 lookup routes (ints, numpy ints, decimal strings, symbol/name in three cases, labels with digits and suffixes, padding) and the vectorised helpers; every integer in -200..300 must be accepted iff in 1..103 through ten routes; non-elements rejected; all ordered pairs for <,>,<=,>=,==,hash; 728 formula multisets.",
+         "Symbols/names from a hand-written list; radii and masses are compared with the library's own table row (cross-route consistency), not with external data (the table's polonium mass 290.0 is therefore not judged).",
+         "2/C17"),
 }
 
 ALL = ["C%02d" % i for i in range(1, 21)]
